@@ -4,7 +4,7 @@ import numpy as np
 from vlib import caseio, gen
 
 ID = "C13"
-COQ_TARGETS = ["C13_Extract.vo", "C13_Proofs.vo", "C13_Link.vo", "C13_Regress.vo"]
+COQ_TARGETS = ["C13_Extract.vo", "C13_Proofs.vo", "C13_Link.vo", "C13_Regress.vo", "C13_Life.vo", "C13_LifeProofs.vo"]
 COQ_PREFIXES = ["C13", "C02"]
 EXTRACTED = "C13_model"
 DRIVER = "drv_C13.ml"
@@ -18,7 +18,9 @@ REQUIRED_THEOREMS = ["C13_known_names_true_nothrow", "C13_never_throws", "C13_ex
                      "C13_identity_after_prediction_on", "C13_identity_after_correction_on", "C13_identity_by_rule",
                      "C13_correction_identity_by_rule", "C13_reversible", "C13_all_off_restores_fresh_state",
                      "C13_reversible_all_off", "C13_reachable_predictions", "C13_each_guard_is_needed", "C13_prediction_restored",
-                     "C13_correction_restored", "C13_state_skipped_gaussian_identity", "C13_state_skipped_gpf_identity_partial"]
+                     "C13_correction_restored", "C13_state_skipped_gaussian_identity", "C13_state_skipped_gpf_identity_partial",
+                     "C13_move_keeps_every_flag", "C13_moves_unobservable", "C13_move_at_any_position", "C13_moved_objects_report_commands",
+                     "C13_identity_with_moves", "C13_steps_with_moves"]
 RULE = ("words over the 12 skip commands {prediction,state,exogenous,correction,all,<bogus>} x {on,off} and the call freeze_measurements(), on assembled filters: "
         "GaussianFilter with KF, additive-UKF, generic-UKF + SUKF steps; SIS with bootstrap and Gaussian-particle (KF or UKF inside) steps; a bootstrap filter whose "
         "exogenous model is given to the DrawParticles constructor; each with and without exogenous model; measurement source = a counting stream sensor or the "
@@ -29,14 +31,26 @@ RULE = ("words over the 12 skip commands {prediction,state,exogenous,correction,
         "beliefs: linear for KF / bootstrap, also Euler-circular and quaternion layouts for UKF, Euler-circular for generic-UKF+SUKF and Gaussian-particle(UKF); "
         "where the code assigns the whole output object (skipped wrapper, KF/UKF predictStep test) half of the steps get an output object of another shape; "
         "every step is compared bitwise with the input and with never-skipped twins that received the same freeze / predict / correct calls; "
-        "non-trivial = a word with at least two commands one of which is 'on'; distinct by (configuration, exogenous, word)")
+        "OBJECT LIFETIMES: the operation 'move' replaces the filter by a new one whose prediction and correction steps are obtained from the current "
+        "ones (fresh, or after any commands / steps) by move construction ('move'), by move assignment onto freshly built steps ('move=', the classes that have one: "
+        "KF/UKFPrediction, DrawParticles, GPFPrediction, BootstrapCorrection, GPFCorrection; KF/UKF/SUKFCorrection have a move constructor only) or onto steps told to "
+        "skip everything ('move=!'); the flags are read back right after the move: every word of length <= 2 with one move at every position on all configurations, "
+        "and 1..3 moves at random positions in half of the random words; the never-skipped twins are never moved; "
+        "STAND-ALONE steps (half of the move words, 25% of the random words): the commands are given to the step objects themselves "
+        "(Prediction::skip(name, status), Correction::skip(status); 'all' = both); "
+        "INTRUDER (every word of length <= 2 on all configurations, 30% of the random words): another filter object of the same configuration receives a fixed cycle "
+        "of OTHER skip commands and runs predict + correct on beliefs of its own before every operation of the word and inside every callback of the subject's and the twins' "
+        "state / exogenous / measurement models; nothing observed may change; "
+        "non-trivial = a word with at least two commands one of which is 'on'; distinct by (configuration, exogenous, word incl. moves)")
 TRUSTED_BASE = ["Coq 8.16.1 kernel (coqc); no axioms (Print Assumptions: closed under the global context)",
                 "extraction (ExtrOcamlBasic only) and ocaml/drv_C13.ml, ocaml/caseio.ml",
                 "cpp/h_C13.cpp harness: its test models (LTI state model with a history-independent noise sample, affine exogenous model, "
                 "served measurement), the classification of a step's output by bitwise comparison with the input and with never-skipped twins",
                 "the model abstracts the numerical bodies of predictStep / correctStep as arbitrary functions (pstep, cstep); what they compute is C01-C08's subject",
                 "correspondence is sampled beyond the exhaustively enumerated word lengths"]
-ASSUMPTIONS = ["GPFPrediction::predictStep: the output particle set has the input's shape (C13_state_skipped_gpf_identity_partial; otherwise the sliced "
+ASSUMPTIONS = ["a move of the step objects is modelled as one operation (C13_Life.LMove) whatever the C++ form (constructor / assignment, fresh or used target); "
+               "the filter objects themselves cannot be moved (deleted move operations) and hold no skip state of their own",
+               "GPFPrediction::predictStep: the output particle set has the input's shape (C13_state_skipped_gpf_identity_partial; otherwise the sliced "
                "assignment + Ref copy leave an inconsistent object, C13_state_skipped_gpf_other_shape) -- as for every non-skipped step (C14)",
                "the filter is driven from one thread (data races on the flags are C10's subject)",
                "the correction's skip flag has no accessor; it is observed through the behaviour of correct() only",
@@ -56,6 +70,9 @@ DRAWPARTICLES_CTOR_ATTACHES = True
 def _w(c, name):
     """word operand, [] when absent (an empty word is not written: the shared case reader drops empty word lines)"""
     return list(c.get(name)) if c.has(name) else []
+
+
+MOVES = ["move", "move=", "move=!"]      # move construction; move assignment onto fresh steps; onto steps told to skip everything
 
 
 def alphabet(bogus="bogus", freeze=True):
@@ -119,9 +136,10 @@ def step_ops(rng, kind, exo_eff, st, which, quat=0):
     return out
 
 
-def word_case(rng, cid, kind, exo, cmds, interleave):
+def word_case(rng, cid, kind, exo, cmds, interleave, intrude=False, direct=False):
     """interleave: 'all' = predict and correct after every command; 'random'; 'end'"""
-    c = caseio.Case(cid, kind, {"exo": int(exo), "mode": "word", "len": len(cmds), "freezes": 1 + sum(1 for x in cmds if x == "freeze")})
+    c = caseio.Case(cid, kind, {"exo": int(exo), "mode": "word", "len": len(cmds), "freezes": 1 + sum(1 for x in cmds if x == "freeze"),
+                                "moves": sum(1 for x in cmds if x in MOVES)})
     operands(rng, c, kind)
     exo_eff = bool(exo) and (kind != "boot2" or DRAWPARTICLES_CTOR_ATTACHES)
     st = (False, False, False)
@@ -130,7 +148,7 @@ def word_case(rng, cid, kind, exo, cmds, interleave):
         ops += step_ops(rng, kind, exo_eff, st, ["predict", "correct"], c.meta["quat"])
     for x in cmds:
         ops.append(x)
-        if x != "freeze":
+        if ":" in x:
             name, s_ = x.rsplit(":", 1)
             st = rule_step(st, name, s_ == "on", exo_eff)
         if interleave == "all":
@@ -140,6 +158,8 @@ def word_case(rng, cid, kind, exo, cmds, interleave):
     if interleave != "all":
         ops += step_ops(rng, kind, exo_eff, st, ["predict", "correct"], c.meta["quat"])
     c.meta["traj"] = 2 + sum(1 for o in ops if o == "freeze")      # length of the simulated trajectory behind the library's sensor
+    c.meta["intrude"] = int(intrude)
+    c.meta["direct"] = int(direct)        # the commands are given to the step objects themselves (stand-alone use of the steps)
     if ops:
         c.word("ops", ops)
     return c
@@ -156,6 +176,38 @@ def enum_case(rng, cid, kind, exo, prefix, ext, freeze=True):
     return c
 
 
+def random_words(rng, cases, cfgs, nrand, maxlen):
+    """random words with other bogus names, random interleaving of predict / correct, moves of the step objects at random
+    points, the intruder, commands given to the steps directly"""
+    for _ in range(nrand):
+        k, e = rng.choice(cfgs)
+        Ab = alphabet(rng.choice(BOGUS))
+        L = rng.randint(4, maxlen)
+        # bias towards words that end with everything switched off
+        w = [rng.choice(Ab) for _ in range(L)]
+        if rng.random() < 0.3:
+            w += rng.choice([["all:off"], ["prediction:off", "correction:off"], ["correction:off", "prediction:off"],
+                             ["state:off", "exogenous:off", "correction:off"]])
+        if rng.random() < 0.5:
+            # the step objects are replaced by objects moved from them, at random points of the word
+            for _m in range(rng.randint(1, 3)):
+                w.insert(rng.randint(0, len(w)), rng.choice(MOVES))
+        cases.append(word_case(rng, len(cases), k, e, w, rng.choice(["all", "random", "random"]), intrude=rng.random() < 0.3, direct=rng.random() < 0.25))
+        if k == "boot2":
+            cases[-1].meta["attach"] = int(DRAWPARTICLES_CTOR_ATTACHES)
+
+
+SEARCH_CASES = 3000
+
+
+def search_cases(rng):
+    """the widened search (vlib/runner.py widen_if_needed): random words of length 4..30 on all configurations, another seed"""
+    cases = []
+    cfgs = [(k, e) for k in KINDS for e in (0, 1)] + ([("boot2", 1)] if PROBE_DRAWPARTICLES_CTOR else [])
+    random_words(rng, cases, cfgs, SEARCH_CASES, 30)
+    return cases
+
+
 def generate(rng, tier):
     cases = []
     A = alphabet()
@@ -168,6 +220,26 @@ def generate(rng, tier):
         for w in itertools.product(A, repeat=L):
             for (k, e) in cfgs:
                 cases.append(word_case(rng, nid(), k, e, list(w), "all"))
+    # another filter object receives other commands and runs steps before every operation and inside every model callback
+    # (class (b): flags shared between objects): every word of length <= 2 on all configurations
+    for L in range(0, 3):
+        for w in itertools.product(A, repeat=L):
+            for (k, e) in cfgs + ([("boot2", 1)] if PROBE_DRAWPARTICLES_CTOR else []):
+                cases.append(word_case(rng, nid(), k, e, list(w), "all", intrude=True))
+                if k == "boot2":
+                    cases[-1].meta["attach"] = int(DRAWPARTICLES_CTOR_ATTACHES)
+    # object lifetimes: every word of length <= 2 with one move at every position (the three forms of move rotate over
+    # words, positions and configurations), predict + correct after every symbol, on all configurations
+    mv = 0
+    for L in range(0, 3):
+        for w in itertools.product(A, repeat=L):
+            for pos in range(L + 1):
+                for ci, (k, e) in enumerate(cfgs + ([("boot2", 1)] if PROBE_DRAWPARTICLES_CTOR else [])):
+                    w2 = list(w[:pos]) + [MOVES[(mv + ci) % 3]] + list(w[pos:])
+                    cases.append(word_case(rng, nid(), k, e, w2, "all", direct=(mv + ci) % 2 == 1))
+                    if k == "boot2":
+                        cases[-1].meta["attach"] = int(DRAWPARTICLES_CTOR_ATTACHES)
+                mv += 1
     # every word of length 4 (packed), on all configurations
     for (k, e) in cfgs:
         cases.append(enum_case(rng, nid(), k, e, [], 4))
@@ -184,16 +256,7 @@ def generate(rng, tier):
         cases[-1].meta["attach"] = int(DRAWPARTICLES_CTOR_ATTACHES)
     # random longer words with other bogus names and random interleaving
     nrand, maxlen = (1500, 8) if tier == "quick" else (20000, 30)
-    for _ in range(nrand):
-        k, e = rng.choice(cfgs)
-        Ab = alphabet(rng.choice(BOGUS))
-        L = rng.randint(4, maxlen)
-        # bias towards words that end with everything switched off
-        w = [rng.choice(Ab) for _ in range(L)]
-        if rng.random() < 0.3:
-            w += rng.choice([["all:off"], ["prediction:off", "correction:off"], ["correction:off", "prediction:off"],
-                             ["state:off", "exogenous:off", "correction:off"]])
-        cases.append(word_case(rng, nid(), k, e, w, rng.choice(["all", "random", "random"])))
+    random_words(rng, cases, cfgs, nrand, maxlen)
     if tier == "thorough":
         # every word of length 5 on all configurations; every word of length 6 on the four (family, exogenous) combinations
         for (k, e) in cfgs:
@@ -211,7 +274,7 @@ def nontrivial(c):
         return (c.kind, c.meta["exo"], "enum", " ".join(_w(c, "prefix")), c.meta["len"])
     cmds = [o for o in _w(c, "ops") if ":" in o]
     if len(cmds) >= 2 and any(o.endswith(":on") for o in cmds):
-        return (c.kind, c.meta["exo"], " ".join(cmds))
+        return (c.kind, c.meta["exo"], " ".join(o for o in _w(c, "ops") if ":" in o or o in MOVES))
     return None
 
 
@@ -321,6 +384,13 @@ def check_ops(cfg, exo, ops, toks, init_flags=None):
                 v.append(("C13:freeze-not-forwarded:%s:%s" % (cfg, "while-skipped" if (S or E or C) else "never-skipped"),
                           "after %s freeze_measurements() #%d: returned %s, measurement %s as the never-skipped twin's, sensor received %s freeze calls"
                           % (done, nfreeze, tok.get("freeze"), tok.get("meas"), tok.get("n"))))
+        elif op in MOVES:
+            # the step objects were replaced by the objects moved from them: they report what the commands so far imply
+            done = done + [op]
+            if not flags_bad:
+                flags_bad = not flags_ok(tok, "moved-step-reports-other-state:" + {"move": "move-constructed", "move=": "move-assigned",
+                                                                                   "move=!": "move-assigned-over-skipping"}[op])
+            continue
         elif ":" in op:
             name, s_ = op.rsplit(":", 1)
             canon = name if name in NAMES else "<unknown>"
@@ -371,7 +441,7 @@ def check_ops(cfg, exo, ops, toks, init_flags=None):
 def word_tokens(ops, tr):
     toks = []
     for op, tok in zip(ops, tr):
-        if op == "freeze":
+        if op == "freeze" or op in MOVES:
             toks.append(parse_flags(tok))
         elif ":" in op:
             toks.append((tok.split(",")[0][2:], parse_flags(tok.split(",", 1)[1]) if "," in tok else None))
@@ -491,6 +561,7 @@ def main(ctx, a):
         finally:
             VARIANTS.update(saved)
     ctx.extra["histogram"] = histogram(cases)
+    runner.widen_if_needed(ctx, me, a)
     return runner.finish(ctx)
 
 
@@ -502,7 +573,9 @@ def histogram(cases):
         return d
     words = sum(len(c.get("alphabet")) ** c.get("ext") if c.meta["mode"] == "enum" else 1 for c in cases)
     return {"configuration": count(lambda c: "%s exo=%s" % (c.kind, c.meta["exo"])), "mode": count(lambda c: c.meta["mode"]),
-            "word_length": count(lambda c: c.meta["len"]), "command_words_run": words}
+            "word_length": count(lambda c: c.meta["len"]), "moves_in_word": count(lambda c: c.meta.get("moves", 0)), "intruder": count(lambda c: c.meta.get("intrude", 0)), "commands_given_to_the_steps": count(lambda c: c.meta.get("direct", 0)),
+            "move_forms": {m: sum(1 for c in cases if c.meta["mode"] == "word" and m in _w(c, "ops")) for m in MOVES},
+            "command_words_run": words}
 
 
 LEVEL_TEXT = ("Proof: the four dispatch layers of the skip commands (filter -> prediction/correction -> state model -> exogenous model), the predict/correct "
@@ -510,7 +583,8 @@ LEVEL_TEXT = ("Proof: the four dispatch layers of the skip commands (filter -> p
               "for ALL command words, with and without exogenous model, it is proved that known names answer true and nothing ever throws, unknown names "
               "(and 'exogenous' without such a model) answer false and change nothing, the reported flags follow the last-command rule "
               "(prediction skipped = state skipped && (exogenous skipped or absent)), a skipped step is the identity, and once everything is switched off "
-              "the flags and hence both step functions are those of a never-skipped filter. The model is tied to the code by running the extracted machine "
+              "the flags and hence both step functions are those of a never-skipped filter; replacing the step objects by objects moved from them (move constructors / "
+              "move assignments of the nine step classes) at any positions of any word changes no answer, no reported flag and no step outcome. The model is tied to the code by running the extracted machine "
               "and assembled filters on exhaustively enumerated and random command words interleaved with predict/correct on random beliefs.")
 LEVEL_NOTE = ("Trusted: Coq kernel, extraction, harness (test models, classification of outputs by bitwise comparison with the input and with never-skipped twins). "
               "The numerical step bodies are abstract in this model. Words beyond the enumerated lengths are sampled.")
